@@ -935,7 +935,7 @@ def correspondence(ctx):
                     cur = {nm: "".join(s[a:b] for a, b in op[1]) for nm, s in cur.items()}
                 else:
                     cur_mt, cur = _spec_apply(cur_mt, cur, op)
-            except (IndexError, SpecNone):
+            except (IndexError, SpecNone, ValueError):
                 break
         if ops:
             cases.append((mt, rows, ops))
@@ -959,6 +959,9 @@ def correspondence(ctx):
             cases.append((mt, rows, ops))
             bump(out, "corr_plan", name)
             bump(out, "corr_shape", shape)
+    # keep only the prefix of each history the model covers (a refused filtered() ends it)
+    cases = [(mt, rows, ops[: len(_model_ops(mt, rows, ops))]) for mt, rows, ops in cases]
+    cases = [c for c in cases if c[2]]
     reqs = [("history", dict(moltype=mt, rows=[[k, v] for k, v in rows.items()], ops=_model_ops(mt, rows, ops)))
             for mt, rows, ops in cases]
     models = ctx.driver.batch(reqs)
